@@ -83,21 +83,27 @@ def run(ctx):
     gen = gen_programs(ctx, 6 if thorough else 2, 400 if thorough else 150, 6)
     cfgs = [(be, "optim") for be in BACKENDS] + [("spqlios-fma", "debug"), ("fftw", "debug")] if thorough else [("spqlios-fma", "optim")]
     stats_lines = []
+    runs = []
     for be, kind in cfgs:
-        scale = 1 if not thorough else (6 if kind == "optim" and be.startswith("spqlios") else 2)
-        rnd = random.Random(ctx.seed * 31 + len(be))
+        if thorough:
+            runs.append((be, kind, 6 if kind == "optim" and be.startswith("spqlios") else 2, None))
+        else:          # quick: two processes, one per order in which the two parameter sets are first used
+            runs.append((be, kind, 1, (80, 128)))
+            runs.append((be, kind, 1, (128, 80)))
+    for be, kind, scale, order in runs:
+        rnd = random.Random(ctx.seed * 31 + len(be) + (order[0] if order else 0))
         p = progs.Prog()
         R = 16
         for rep in range(scale):
-            for lam in ((80, 128) if rep % 2 == 0 else (128, 80)):       # both orders of the two parameter sets within one process
+            for lam in (order or ((80, 128) if rep % 2 == 0 else (128, 80))):       # both orders of the two parameter sets within one process
                 sd = ctx.seed + rep
-                progs.random_program(p, lam, sd, rnd, 8, 260)
-                progs.chain(p, lam, sd, rnd, 70)
+                progs.random_program(p, lam, sd, rnd, 8, 260 if thorough else 150)
+                progs.chain(p, lam, sd, rnd, 70 if thorough else 40)
                 progs.adder(p, lam, sd, rnd, 4, 2)
                 progs.mux_tree(p, lam, sd, rnd, 3, 3)
                 for g in gen[(rep * 2) % len(gen):][:2]:
                     progs.from_tlc_hist(g, p, lam, sd, 6)
-        tag = "%s-%s" % (be, kind)
+        tag = "%s-%s%s" % (be, kind, "-%d" % order[0] if order else "")
         rc, err, pf, tf = gates.exec_program(ctx, p, be, kind, tag, timeout=7200)
         if rc != 0:
             ctx.violation("netlist program died on %s/%s rc=%s %s" % (be, kind, rc, err[-300:]), key="h_gates crash %s %s" % (be, kind), files=[pf])
